@@ -53,16 +53,20 @@ def current(repo=REPO):
 
 def changed(repo=REPO):
     try:
-        rec = json.load(open(FILE))["functions"]
+        doc = json.load(open(FILE))
+        rec = doc["functions"]
     except Exception:
-        return ["<no fingerprints recorded>"]
+        return []
+    if doc.get("python") != list(sys.version_info[:2]):
+        return []       # ast.dump differs between interpreter versions: no information
     cur = current(repo)
     return sorted(k for k in set(rec) | set(cur) if rec.get(k) != cur.get(k))
 
 
 if __name__ == "__main__":
     if "--write" in sys.argv:
-        json.dump({"comment": "written by tools/fingerprint.py --write from the /repo HEAD the checks were calibrated on", "functions": current()}, open(FILE, "w"), indent=0, sort_keys=True)
+        json.dump({"comment": "written by tools/fingerprint.py --write (run it with /venv/bin/python) from the /repo HEAD the checks were calibrated on",
+                   "python": list(sys.version_info[:2]), "functions": current()}, open(FILE, "w"), indent=0, sort_keys=True)
         print("recorded", len(current()), "fingerprints")
     else:
         for k in changed():
